@@ -5,7 +5,7 @@ V = os.path.dirname(os.path.dirname(os.path.abspath(__file__)))
 
 CLAIMED = {
  "C19": dict(
-  text="Seeded search over goroutine interleavings of 2-4 concurrent callers of Compile/Run/RunFiles(NOTHING) on shared and private programs, with real vore code under a token scheduler that owns every preemption; oracles: per-op equality with the solo outcome, own happens-before monitor on package-level variables, deadlock/step-budget, post-phase solo re-execution, and the Go race detector made schedule-deterministic (the scheduler adds no happens-before edge). Exploration, not proof: a clean batch is evidence.",
+  text="Seeded search over goroutine interleavings of 2-4 concurrent callers of Compile/Run/RunFiles(NOTHING) on shared and private programs (now and then all on one hot program, on 64 KiB texts, or in a process that has never run vore code before: cold-start phases), with real vore code under a token scheduler that owns every preemption, including those of goroutines the code under test starts itself; oracles: per-op equality with the solo outcome, returned lists unchanged until the caller's last op, own happens-before monitor on package-level variables, deadlock/step-budget, post-phase solo re-execution, and the Go race detector made schedule-deterministic (the scheduler adds no happens-before edge). Exploration, not proof: a clean batch is evidence.",
   design_ref="DESIGN.md §3 C19, §2.3",
   note="Preemption happens only at instrumented points (function entries, loop heads, package-variable accesses, lock and file-system calls); solo references come from the same instrumented build; TSan history is bounded; write modes excluded.",
   technique="deterministic simulation: seeded token scheduler over instrumented code + schedule-deterministic race detector + solo-equality oracle"),
